@@ -28,6 +28,9 @@ pub enum Validator {
     Always,
     /// veto when (prev.id + curr.id) % m == r
     Mod { m: u64, r: u64 },
+    /// a validator with state of its own (a version high-water mark, a token bucket, ...):
+    /// consultations are answered accept, veto, accept, veto, ... in the order they happen
+    Toggle,
 }
 
 #[derive(Serialize, Deserialize, Clone, Debug, PartialEq, Eq)]
